@@ -121,13 +121,25 @@ class TlcResult:
 _VEC_RE = re.compile(r'^<<"([A-Z_]+)", (".*")>>(?:  (?:TRUE|FALSE))?$')
 
 
+def _canon_key(v):
+    """text of a JSON value in which object keys and the elements of every array are sorted (a run-independent sort key)"""
+    if isinstance(v, dict):
+        return "{" + ",".join(json.dumps(k) + ":" + _canon_key(v[k]) for k in sorted(v)) + "}"
+    if isinstance(v, list):
+        return "[" + ",".join(sorted(_canon_key(x) for x in v)) + "]"
+    return json.dumps(v)
+
+
 def _parse_tlc_output(res, out, want_tags=("VEC",)):
     try:
         _parse_tlc_output_(res, out)
     finally:
         # TLC's workers print in no particular order: everything downstream (numbering of worlds, sampling by index, which
         # violation is reported first) must not depend on it
-        res.vecs.sort(key=lambda v: json.dumps(v, sort_keys=True))
+        # (and not on the order in which TLC prints a *set*: TLC orders strings by the number they were interned under, and
+        # strings built at run time, "ctor:" \o c, are interned by whichever worker gets there first -- so the sort key reads
+        # every JSON array as a multiset; the literal text only breaks ties between vectors that are equal up to that)
+        res.vecs.sort(key=lambda v: (_canon_key(v), json.dumps(v, sort_keys=True)))
 
 
 def _parse_tlc_output_(res, out):
